@@ -182,6 +182,25 @@ func nearTie(base int64, limit int64, scale float64) int64 {
 	return best
 }
 
+// WordBoundary returns the largest argument x with x*scaleNum/scaleDen-style product
+// below m*2^j: x = floor(m * 2^j / mult). Arithmetic on the product of the two
+// arguments (rate x duration, count x 10^9) in 64- or 128-bit integers, or in a
+// float with 53 bits, changes regime there.
+func WordBoundary(m int64, j uint, mult float64) int64 {
+	if mult <= 0 {
+		return -1
+	}
+	x := new(big.Float).SetPrec(200).SetInt(new(big.Int).Lsh(big.NewInt(m), j))
+	x.Quo(x, new(big.Float).SetPrec(200).SetFloat64(mult))
+	if x.Cmp(big.NewFloat(9e18)) > 0 {
+		return -1
+	}
+	v, _ := x.Int64()
+	return v
+}
+
+var boundaryOffsets = []int64{-1, -2, -3, -7, -20, -45, -88, -150, -400, -499, 0, 1, 2, 50}
+
 func Gen(t *rapid.T) *Case {
 	var f float64
 	switch rapid.IntRange(0, 7).Draw(t, "fSel") {
@@ -244,6 +263,13 @@ func Gen(t *rapid.T) *Case {
 		if rapid.Bool().Draw(t, "tieN") {
 			n = nearTie(n, maxN, 1e9/f)
 		}
+		if rapid.IntRange(0, 4).Draw(t, "wordN") == 0 { // count x 10^9 next to a multiple of 2^53 / 2^63 / 2^64
+			x := WordBoundary(int64(rapid.IntRange(1, 8).Draw(t, "wordNm")), uint(rapid.SampledFrom([]int{53, 63, 64}).Draw(t, "wordNj")), 1e9)
+			x += rapid.SampledFrom(boundaryOffsets).Draw(t, "wordNoff")
+			if x >= 0 && x <= maxN {
+				n = x
+			}
+		}
 		c.Ns = append(c.Ns, n)
 		d := rapid.Int64Range(0, day).Draw(t, "d")
 		if rapid.IntRange(0, 3).Draw(t, "longD") == 0 {
@@ -251,6 +277,17 @@ func Gen(t *rapid.T) *Case {
 		}
 		if rapid.Bool().Draw(t, "tieD") {
 			d = nearTie(d, day, f/1e9)
+		}
+		if rapid.IntRange(0, 3).Draw(t, "wordD") == 0 { // rate x duration next to a multiple of 2^53 / 2^63 / 2^64
+			x := WordBoundary(int64(rapid.IntRange(1, 8).Draw(t, "wordDm")), uint(rapid.SampledFrom([]int{53, 63, 64}).Draw(t, "wordDj")), f)
+			if rapid.Bool().Draw(t, "wordDfree") {
+				x += rapid.Int64Range(-600, 600).Draw(t, "wordDany")
+			} else {
+				x += rapid.SampledFrom(boundaryOffsets).Draw(t, "wordDoff")
+			}
+			if x >= 0 && x <= day {
+				d = x
+			}
 		}
 		c.Ds = append(c.Ds, d)
 	}
